@@ -33,6 +33,17 @@ def c16(pid, tier, t0):
     res.stats["states"] = res.stats.get("states", 0) + r2.stats.get("states", 0)
     if r2.stats.get("deadline_hit"):
         res.stats["deadline_hit"] = 1
+    # (d) :s on multi-byte lines: the C14 enumeration, of which only the UTF-8 validity invariant counts here
+    exe3 = nv.build_harness("c14_subst", "asan", ["c14_subst.c"], wraps=WRAPS)
+    r3 = nv.run_shards(exe3, ["tier=" + tier, "deadline=%d" % dl(tier)], nv.NCPU, dl(tier) + 120, tag="s")
+    res.viols += [v for v in r3.viols if v[0].startswith("c16")]
+    res.errs += r3.errs
+    res.shards += r3.shards
+    res.done += r3.done
+    res.stats["substitutions_validated"] = r3.stats.get("states", 0)
+    res.stats["transitions"] = res.stats.get("transitions", 0) + r3.stats.get("transitions", 0)
+    if r3.stats.get("deadline_hit"):
+        res.stats["deadline_hit"] = 1
     return nv.finish(pid, tier, t0, res, {
         "rule": "every Unicode scalar value U+0001..U+10FFFF (minus surrogates) embedded between neighbours of 1..4 bytes; "
                 "every string of <= maxlen characters over {a, U+00E9, U+20AC, U+1F600, U+0301, newline}; "
@@ -43,7 +54,7 @@ def c16(pid, tier, t0):
                        "private uc_len/uc_dec compared with an independent encoder/segmenter on every enumerated input",
     }, ["character arithmetic on text that is not valid UTF-8 is outside the property",
         "uc_off is compared at character boundaries only",
-        "the editor-level clause (edits keep text valid UTF-8) is decided by running the C08 exploration on its multi-byte buffers: every line of every reached state is validated"])
+        "the editor-level clause (edits keep text valid UTF-8) is decided by running the C08 exploration on its multi-byte buffers (every line of every reached state is validated) and the C14 enumeration of substitutions (every result is validated)"])
 
 
 @check("C17")
